@@ -51,6 +51,9 @@ type C06LifeCase struct {
 	Requeue     int             `json:"requeue,omitempty"`       // operator RequeueDead rounds
 	Retain      bool            `json:"retain,omitempty"`        // delivered retention on
 	Seed        int64           `json:"seed"`                    // math/rand seed (jitter source of the dispatcher)
+	// DrainAt: the stop signal of Drain (shutdown, restart for a new configuration) arrives while the
+	// k-th Deliver call of the case is in progress (0: never); a new dispatcher takes over afterwards.
+	DrainAt int `json:"drain_at,omitempty"`
 }
 
 func genC06Beh(t *rapid.T) C06Beh {
@@ -96,6 +99,9 @@ func genC06LifeCase() *rapid.Generator[C06LifeCase] {
 		c.Requeue = pFrom(t, "requeue", []int{0, 0, 1, 2})
 		c.Retain = pChance(t, "retain", 1, 2)
 		c.Seed = int64(rapid.IntRange(1, 1<<30).Draw(t, "seed"))
+		if pChance(t, "drain", 1, 3) {
+			c.DrainAt = pRange(t, "drain_at", 1, 6)
+		}
 		return c
 	})
 }
@@ -132,6 +138,8 @@ type c06World struct {
 	batchCalls int
 	failure    *verifkit.Failure
 	stopped    bool
+	draining   bool // the case's stop signal was given; the loop has not returned yet
+	drained    bool
 }
 
 func (w *c06World) fail(f *verifkit.Failure) {
@@ -200,6 +208,12 @@ func (ld c06LifeDeliverer) Deliver(ctx context.Context, dl Delivery) Result {
 	call.Alts = c06OracleAlts(status, errKind, att, tc.Retry.Max)
 	w.pending[dl.ID] = call
 	w.calls[dl.ID] = append(w.calls[dl.ID], call)
+	if w.c.DrainAt > 0 && w.total == w.c.DrainAt && !w.drained {
+		// Drain's stop signal arrives while this delivery is in progress
+		w.drained, w.draining = true, true
+		w.d.stopOnce.Do(func() { close(w.d.stopCh) })
+		w.out.label("drain-during-delivery")
+	}
 	return res
 }
 
@@ -286,6 +300,15 @@ func (w *c06World) settled(leaseIDs []string, via string) {
 			continue
 		}
 		call := w.pending[msg]
+		if call == nil && w.draining && (via == "Nack" || via == "NackBatch") {
+			// a stopping dispatcher hands back the messages of its batch it has not sent yet
+			obs, err := c06Observe(w.inner, w.route, msg, now)
+			if err == nil && obs.Kind != "retry" {
+				w.fail(pFail("C06", "stop-requeue", w.total, "message %s was leased but not sent when the dispatcher stopped; it is %s afterwards, want back in the queue", msg, obs))
+			}
+			w.out.label("stop-requeued-unsent")
+			continue
+		}
 		if call == nil {
 			w.fail(pFail("C06", "mutation-without-delivery", w.total, "%s on message %s without a preceding Deliver call", via, msg))
 			continue
@@ -501,6 +524,25 @@ func runC06Life(c C06LifeCase, tolerateKnown bool) *pOutcome {
 		}
 		return w.failure
 	}
+	// a round that the case's stop signal ended: every delivery result the dispatcher obtained must have
+	// been applied before it returned; then a new dispatcher takes over
+	runRoundAcrossDrain := func() *verifkit.Failure {
+		f := runRound()
+		if f != nil || !w.draining {
+			return f
+		}
+		w.draining = false
+		if len(w.pending) > 0 {
+			ids := make([]string, 0, len(w.pending))
+			for id := range w.pending {
+				ids = append(ids, fmt.Sprintf("%s (attempt %d, %+v)", id, w.pending[id].Attempt, w.pending[id].Beh))
+			}
+			sort.Strings(ids)
+			return pFail("C06", "not-settled-at-stop", w.total, "the dispatcher stopped (Drain during Deliver call %d) without applying the delivery results of %v to the store: the messages stay leased and are sent again after the lease expires", w.c.DrainAt, ids)
+		}
+		out.label("drain-then-new-dispatcher")
+		return runRound()
+	}
 
 	finish := func(f *verifkit.Failure) *pOutcome {
 		if f != nil && !out.tolerate(f, tolerateKnown) {
@@ -510,7 +552,7 @@ func runC06Life(c C06LifeCase, tolerateKnown bool) *pOutcome {
 	}
 
 	for round := 0; ; round++ {
-		if f := runRound(); f != nil {
+		if f := runRoundAcrossDrain(); f != nil {
 			return finish(f)
 		}
 		// terminal states
